@@ -343,7 +343,7 @@ def run_witness(u, scratch, failed_obligations, tier):
         return {}
     copy = os.path.join(scratch, "repo-copy")
     if not os.path.exists(copy):
-        r = sh(["rsync", "-a", "--exclude", "/target", "--exclude", ".git", REPO + "/", copy + "/"])
+        r = sh(["rsync", "-a", "--exclude", "target/", "--exclude", ".git", REPO + "/", copy + "/"])
         if r.returncode != 0:
             return {"_error": "rsync failed: " + r.stderr[-300:]}
     crate_dir = os.path.join(copy, w["crate_dir"])
